@@ -15,8 +15,40 @@ import (
 func init() { register("C11", "model_checking", runC11) }
 
 // worldFromSpec builds the real tree and the model heap side by side (every container bound).
-func worldFromSpec(v *spec.V, nregs int) *model.World {
+func worldFromSpec(v *spec.V, nregs int) *model.World { return worldFromSpecRoute(v, nregs, 0) }
+
+// construction routes: the same logical tree reached through different library operations
+var routeNames = []string{"Add/Set", "", "every list is a SubList(0,0) result", "every list is a Concat result", "one-element lists by NewListOf(x,1)",
+	"parsed from its own String()", "a Clone of a Clone", "every object is a Merge result", "every object is a Pluck result"}
+
+func worldFromSpecRoute(v *spec.V, nregs int, route int) *model.World {
 	w := model.NewWorld(nregs)
+	if route == 5 || route == 6 {
+		var real interface{} = v.Build()
+		if route == 5 {
+			if l, ok := real.(at.List); ok {
+				p, err := at.ParseList(l.String())
+				if err != nil {
+					panic(err)
+				}
+				real = p
+			} else {
+				p, err := at.ParseObject(real.(at.Object).String())
+				if err != nil {
+					panic(err)
+				}
+				real = p
+			}
+		} else {
+			if l, ok := real.(at.List); ok {
+				real = l.Clone().Clone()
+			} else {
+				real = real.(at.Object).Clone().Clone()
+			}
+		}
+		w.Regs[0] = w.Adopt(real)
+		return w
+	}
 	var build func(v *spec.V) (interface{}, interface{})
 	build = func(v *spec.V) (interface{}, interface{}) {
 		switch v.K {
@@ -27,6 +59,14 @@ func worldFromSpec(v *spec.V, nregs int) *model.World {
 				m.E = append(m.E, me)
 				r.Add(re)
 			}
+			switch {
+			case route == 2:
+				r = r.SubList(0, 0)
+			case route == 3:
+				r = at.NewList().Concat(r)
+			case route == 4 && len(v.L) == 1:
+				r = at.NewListOf(r.Get(0), 1)
+			}
 			w.Bind(m, r)
 			return m, r
 		case spec.Obj:
@@ -35,6 +75,12 @@ func worldFromSpec(v *spec.V, nregs int) *model.World {
 				me, re := build(e.V)
 				m.M[e.K] = me
 				r.Set(e.K, re)
+			}
+			switch route {
+			case 7:
+				r = at.NewObject().Merge(r)
+			case 8:
+				r = r.Pluck(r.Keys().StringSlice()...)
 			}
 			w.Bind(m, r)
 			return m, r
@@ -176,6 +222,7 @@ type c11Cfg struct {
 	badUnset   []string
 	startNodes int
 	startDepth int
+	keys       []string // keys of the start trees (default a, b)
 }
 
 func c11Paths(segs []string, k int, rootSigil byte) []string {
@@ -393,18 +440,22 @@ func c11Situation(root interface{}, segs []tfSeg) string {
 
 func c11System(cfg c11Cfg) *bfs.System[W, tfOp] {
 	var inits []func() W
-	en := spec.NewEnum([]*spec.V{spec.NilV, spec.I(1), spec.S("s")}, []string{"a", "b"})
+	keys := cfg.keys
+	if keys == nil {
+		keys = []string{"a", "b"}
+	}
+	en := spec.NewEnum([]*spec.V{spec.NilV, spec.I(1), spec.S("s")}, keys)
 	en.Containers(cfg.startNodes, cfg.startDepth, func(v *spec.V) bool {
 		inits = append(inits, func() W {
 			w := worldFromSpec(v, 1)
-			w.ProbeKeys = []string{"a", "b", "c"}
+			w.ProbeKeys = append([]string{"c"}, keys...)
 			w.ProbeVals = []interface{}{nil, 1, 2}
 			return w
 		})
 		return true
 	})
 	return &bfs.System[W, tfOp]{Name: cfg.name, Inits: inits, Ops: c11Ops(cfg), Apply: c11Apply, Label: c11Label,
-		Check: func(w W) (string, string) { return w.Check() }, Key: func(w W) string { w.UseShape = false; return w.Key() },
+		Check: func(w W) (string, string) { return w.Check() }, Key: func(w W) string { return w.Key() },
 		MaxDepth: cfg.depth, Describe: func(w W) string { return w.Describe() }}
 }
 
@@ -416,6 +467,10 @@ func runC11(c *ev.Ctx) {
 		{name: "one write from every tree (<=4 nodes), paths of <=3 segments", segs: segsFull, maxSegs: 3, depth: 1, values: allVals, badUnset: bad, startNodes: 4, startDepth: 3},
 		{name: "sequences of writes from small trees (<=2 nodes), paths of <=2 segments", segs: []string{".a", ".b", "#0", "#1", "#3"}, maxSegs: 2, depth: 3, values: []vref{{0, 1}, {3, 0}, {4, 0}, {5, 0}}, badUnset: bad[:6], startNodes: 2, startDepth: 2},
 	}
+	e9 := string(rune(0xE9))
+	cfgs = append(cfgs,
+		c11Cfg{name: "two writes (unset/set) from every tree (<=4 nodes), paths of <=2 segments with padding indices", segs: []string{".a", "#0", "#1", "#3", "#4"}, maxSegs: 2, depth: 2, values: []vref{{0, 1}}, startNodes: 4, startDepth: 3},
+		c11Cfg{name: "one write, multi-byte and multi-character keys", segs: []string{"." + e9, ".ab", "#0", "#1", "#2"}, maxSegs: 3, depth: 1, values: []vref{{0, 1}, {3, 0}, {5, 0}}, badUnset: bad[:4], startNodes: 4, startDepth: 3, keys: []string{e9, "ab"}})
 	if c.Thorough() {
 		cfgs[0].startNodes = 5
 		cfgs[1].depth = 4
